@@ -15,13 +15,20 @@
    with the left operand's type (a stale or half register) and must be
    rejected; "nan-false" forgets the parity flag.
 
+   A comparison `x OP y` (== != < <=) of long, unsigned long or pointer
+   operands that controls if/while/for/do/?:/&&/||/! is evaluated at the width
+   and signedness of its OPERANDS (the usual arithmetic conversions), whatever
+   the type of its result (int): CmpI/CmpA below, at scaled widths (a "long" of
+   4 bits whose low half has 2).  Variant "cmp-width-of-result" compares at the
+   width of the result type, i.e. the low halves only, and must be rejected.
+
    Values are abstract: an operand is [ty, v] with v one of
      "zero" "negzero" (floating only) "small" (fits the low 32 bits)
      "high" (integers/pointers: low 32 bits zero, high bits set; floating: 0.5)
      "nan" (floating only).                                                   *)
 EXTENDS Integers, TLC
 
-CONSTANT Variant     \* "ok" | "rhs-in-lhs-class" | "nan-false"
+CONSTANT Variant     \* "ok" | "rhs-in-lhs-class" | "nan-false" | "cmp-width-of-result"
 
 IntTys == {"int", "long", "ptr"}
 FpTys  == {"float", "double", "ldouble"}
@@ -56,6 +63,19 @@ OrI  == LET r1 == Load(Regs0, a) IN
 AndI == LET r1 == Load(Regs0, a) IN
         IF ~CmpZero(r1, a.ty) THEN FALSE
         ELSE CmpZero(Load(r1, b), IF Variant = "rhs-in-lhs-class" THEN a.ty ELSE b.ty)
+
+(* ---- 64-bit comparisons as controlling expressions (scaled: 4-bit long, 2-bit low half) ---- *)
+WrapS(x, w) == LET u == x % (2 ^ w) IN IF u >= 2 ^ (w - 1) THEN u - 2 ^ w ELSE u
+WrapU(x, w) == x % (2 ^ w)
+Ops == {"eq", "ne", "lt", "le"}
+Rel(op, x, y) == CASE op = "eq" -> x = y [] op = "ne" -> x # y [] op = "lt" -> x < y [] op = "le" -> x <= y
+CmpA(op, signed, x, y) == Rel(op, x, y)
+CmpI(op, signed, x, y) ==       \* cmp %rdi,%rax / cmp %edi,%eax; setcc by signedness of the operands
+  LET w == IF Variant = "cmp-width-of-result" THEN 2 ELSE 4 IN
+  IF signed THEN Rel(op, WrapS(x, w), WrapS(y, w)) ELSE Rel(op, WrapU(x, w), WrapU(y, w))
+CmpOK == (a = [ty |-> "int", v |-> "zero"] /\ b = [ty |-> "int", v |-> "zero"]) =>      \* evaluated once
+           /\ \A op \in Ops, x \in -8..7, y \in -8..7 : CmpI(op, TRUE, x, y) = CmpA(op, TRUE, x, y)
+           /\ \A op \in Ops, x \in 0..15, y \in 0..15 : CmpI(op, FALSE, x, y) = CmpA(op, FALSE, x, y)
 
 SameTruth == /\ CmpZero(Load(Regs0, a), a.ty) = TruthA(a)          \* ! ?: if while do for
              /\ OrI = (TruthA(a) \/ TruthA(b))
